@@ -443,6 +443,10 @@ def fresh_of_sort(I, sort, name):      # noqa: F811  (extends the basic sorts)
         return fresh_of_sort(I, alts[-1], name)
     if sort.startswith('gen_'):
         return _base_fresh(I, 'seq_' + sort[4:], name).with_kind('gen')
+    if sort.startswith('listof:') or sort.startswith('tupleof:'):
+        _, n, inner = sort.split(':', 2)
+        items = [fresh_of_sort(I, inner, f'{name}{j}') for j in range(int(n))]
+        return VList(items) if sort.startswith('listof:') else VTuple(items)
     if sort == 'name':      # a column / vector name: None or a string
         if I.ex.choose(z3.Bool(fresh_name(f'{name}.isnone'))):
             return NONE
